@@ -7,6 +7,7 @@ import (
 	"testing"
 
 	"go.flow.arcalot.io/engine/internal/verif/vcase"
+	"go.flow.arcalot.io/engine/internal/verif/vplug"
 	"pgregory.net/rapid"
 )
 
@@ -18,6 +19,38 @@ func faultProfile() vcase.Profile {
 	return p
 }
 
+// failingBurst is a loop whose 32-64 items all fail at once under a parallelism of 8-32: the
+// failure bookkeeping of many items runs at the same instant.
+func failingBurst(rt *rapid.T) *vcase.Case {
+	n := rapid.IntRange(32, 64).Draw(rt, "burst.n")
+	par := rapid.IntRange(8, 32).Draw(rt, "burst.par")
+	itemIn := []vcase.InField{{Name: "k", Type: "string", Required: true}, {Name: "n", Type: "int", Required: true}}
+	w := &vcase.Step{ID: "w", Kind: "plugin", Op: "op", Src: "vp://loop_w", Input: vcase.MapVal([]string{"key", "a"},
+		[]*vcase.Val{vcase.ExprVal(&vcase.Expr{K: "in", Field: "k"}), vcase.ExprVal(&vcase.Expr{K: "in", Field: "n"})})}
+	sub := &vcase.Program{Input: itemIn, Steps: []*vcase.Step{w}, Outputs: []*vcase.Output{{ID: "success", Val: vcase.MapVal([]string{"r"},
+		[]*vcase.Val{vcase.ExprVal(&vcase.Expr{K: "out", Step: "w", Stage: "outputs", Output: "success", Path: []string{"v"}})})}}}
+	items := &vcase.Val{K: "list"}
+	c := &vcase.Case{Prop: "C07", Profile: "motif:burst-of-failing-items", Subs: map[string]*vcase.Program{"sub.yaml": sub}, InputDoc: map[string]any{}}
+	c.Script.Steps = map[string]vplug.Behaviour{}
+	c.Script.Deploys = map[string]vplug.DeployBehaviour{}
+	outcome := rapid.SampledFrom([]string{"crash", "bad_output", "error", "mixed"}).Draw(rt, "burst.outcome")
+	for i := 0; i < n; i++ {
+		key := fmt.Sprintf("loop#%d", i)
+		items.Vals = append(items.Vals, vcase.MapVal([]string{"k", "n"}, []*vcase.Val{vcase.LitVal(vcase.StrLit(key)), vcase.LitVal(vcase.IntLit(int64(i)))}))
+		o := outcome
+		if o == "mixed" {
+			o = []string{"crash", "bad_output", "error", "success"}[i%4]
+		}
+		c.Script.Steps[key] = vplug.Behaviour{Outcome: o}
+	}
+	loop := &vcase.Step{ID: "loop", Kind: "foreach", Workflow: "sub.yaml", Items: items, Parallelism: vcase.LitVal(vcase.IntLit(int64(par)))}
+	c.Main = &vcase.Program{Steps: []*vcase.Step{loop}, Outputs: []*vcase.Output{
+		{ID: "success", Val: vcase.MapVal([]string{"r"}, []*vcase.Val{vcase.ExprVal(&vcase.Expr{K: "out", Step: "loop", Stage: "outputs", Output: "success"})})},
+		{ID: "failed", Val: vcase.MapVal([]string{"e"}, []*vcase.Val{vcase.ExprVal(&vcase.Expr{K: "out", Step: "loop", Stage: "failed", Output: "error"})})}}}
+	c.Labels = []string{"motif:burst-of-failing-items", "outcome:" + outcome}
+	return c
+}
+
 func TestC07(t *testing.T) {
 	p := faultProfile()
 	// Arithmetic / functions over plugin integers and references into the struct-valued
@@ -26,7 +59,12 @@ func TestC07(t *testing.T) {
 	p.IntArithOnOutputs = true
 	p.StructFieldRefs = true
 	runProperty(t, "C07",
-		func(rt *rapid.T) *vcase.Case { return vcase.GenCase(rt, p, "C07") },
+		func(rt *rapid.T) *vcase.Case {
+			if rapid.IntRange(0, 39).Draw(rt, "burst?") == 0 {
+				return failingBurst(rt)
+			}
+			return vcase.GenCase(rt, p, "C07")
+		},
 		func(st *Stats, c *vcase.Case) string {
 			m := vcase.NewModel(c.Main, c.Subs, vcase.NormalizeInput(c.Main, c.InputDoc), c.Script, nil)
 			ans := RunCase(c.Request("run"))
